@@ -94,6 +94,37 @@ theorem mutators_readonly (db : Db) (g : Guard) (ss : Session) (q : Nat) (cap : 
   simp only [stepState, setUnknownCaption]
   cases resolve ss.results q <;> simp
 
+/-- **running the constructor again on an existing quantity changes nothing**: `q.__init__(…)` /
+`Quantity.__init__(q, …)` with any arguments (a category and a unit, a category alone, a composing
+`OrderedDict`, the empty one; any caption) on any quantity a session holds (simple, derived, empty,
+unknown with a caption) leaves the whole state — every object, heap cell, cache entry and
+`_EMPTY_QUANTITY` — as it was, and the caller still holds the same object -/
+theorem reinit_changes_nothing (db : Db) (g : Guard) (ss : Session) (q : Nat) (a : InitArg) (cap : Option Sym) :
+    (stepState db g ss (.reinit q a cap)).1 = ss.st ∧
+    (∀ i, resolve ss.results q = some i → (stepState db g ss (.reinit q a cap)).2 = .ok i) ∧
+    (resolve ss.results q = none → (stepState db g ss (.reinit q a cap)).2 = .skip) := by
+  simp only [stepState, reInit]
+  cases resolve ss.results q <;> simp
+
+/-- **a repeated `__init__` in the middle of any history is not seen by anything that follows**: the
+history with the call left out ends in the same state (cache, objects, heap, `_EMPTY_QUANTITY`), for
+every history before it and every history after it that does not refer to step numbers (the results
+list only gets one more entry) — stated on the state right after the call -/
+theorem reinit_invisible (db : Db) (g : Guard) (before : List Op) (q : Nat) (a : InitArg) (cap : Option Sym) :
+    (run db g (reach db g before) [.reinit q a cap]).st = (reach db g before).st :=
+  (reinit_changes_nothing db g (reach db g before) q a cap).1
+
+/-- every quantity alive before a repeated `__init__` (the one it is called on included) keeps its
+identity, its view (composing map, caption, derived flag: every getter) and its hash through the call
+and through whatever history follows it -/
+theorem reinit_keeps_every_quantity (db : Db) (g : Guard) (before later : List Op) (r : Nat) (a : InitArg)
+    (cap : Option Sym) (i : Nat) (q : Quantity) (hq : (reach db g before).st.objs[i]? = some q) :
+    (run db g (reach db g before) (.reinit r a cap :: later)).st.objs[i]? = some q ∧
+    view (run db g (reach db g before) (.reinit r a cap :: later)).st.heap q = view (reach db g before).st.heap q ∧
+    hashKey (run db g (reach db g before) (.reinit r a cap :: later)).st.heap q =
+      hashKey (reach db g before).st.heap q :=
+  quantities_immutable db g before (.reinit r a cap :: later) i q hq
+
 /-- **copy, deepcopy, Copy(), MakeCopy(), CreateCopyInstance(), abs, arithmetic with a number return
 the identical object** and change nothing -/
 theorem copy_is_self (db : Db) (g : Guard) (ss : Session) (q i : Nat) (h : resolve ss.results q = some i) :
@@ -248,6 +279,14 @@ def sDepth : Sym := 448630121828
 def exGoodOp : Op := .obtain (.seq [⟨28003, -1, false⟩, ⟨104, 3, true⟩]) (.seq [sDepth, sTime] false) none
 def exBadOp : Op := .obtain (.seq [⟨104, -1, false⟩, ⟨28003, 3, true⟩]) (.seq [sDepth, sTime] false) none
 def exOps4 : List Op := [exGoodOp, exBadOp]
+/-- m * m (derived); `__init__('time', 's')` on it; `__init__(OrderedDict(), None)` on it; m * m again -/
+def exOps5 : List Op := [
+  .obtain (.str sM) (.str sLength) none,
+  .new false (.ref 0) (.ref 0),
+  .reinit 1 (.simple sTime (some sS)) none,
+  .reinit 1 (.derived []) (some 7364963),
+  .new false (.ref 0) (.ref 0),
+  .reinit 0 (.derived [(sTime, ⟨sS, -1, false⟩)]) none]
 def exOps3 : List Op := [
   .obtain (.seq [⟨sM, 1, true⟩, ⟨sS, -1, true⟩]) (.seq [sLength, sTime] true) none,
   .obtain (.str sCm) (.str sLength) none,
